@@ -93,9 +93,16 @@ def print_case(case):
     if offset:
         X = X * 0.37 - 0.37          # negative, zero and fractional thresholds
     n, d = X.shape
-    p = {a: AXES[a][i] for a, i in cfg.items()}
+    p = dict(cfg["explicit"]) if "explicit" in cfg else {a: AXES[a][i] for a, i in cfg.items()}
     mss, msl = p["split_leaf"]
-    if n < msl or p["kernel"] == "precomputed":
+    yk = None
+    if p["kernel"] == "precomputed" and data_spec[0] in ("rows_ulp", "rows_huge"):
+        # values that differ in the last bit / lie near the overflow limit: only a kernel given by the user grows a tree there
+        B = np.random.RandomState(61_000 + n).normal(size=(n, n))
+        yk = (B + B.T) / 2
+    elif n < msl or p["kernel"] == "precomputed":
+        return {"v": [], "stats": {"evals": 0}}
+    if n < msl:
         return {"v": [], "stats": {"evals": 0}}
     model = Kauri(max_clusters=p["max_clusters"], max_depth=p["max_depth"], min_samples_split=mss, min_samples_leaf=msl,
                   max_features=p["max_features"], max_leaves=p["max_leaves"], kernel=p["kernel"], random_state=p["seed"])
@@ -107,7 +114,7 @@ def print_case(case):
                 print_kauri_tree(model.fit(Xo), ["n%d" % i for i in range(d + 2)])
             except Exception:  # noqa
                 pass
-    model.fit(X)
+    model.fit(X, yk)
     t = model.tree_
     used = sorted({f for f in t.features if f is not None})
     where = dict(n=n, d=d, n_nodes=t.n_nodes, used_features=used)
@@ -118,9 +125,12 @@ def print_case(case):
         g = {X[:, f].min() - 1, X[:, f].max() + 1, 0.123}
         for i in range(t.n_nodes):
             if t.features[i] == f:
-                g.update([t.thresholds[i], t.thresholds[i] - 1e-9, t.thresholds[i] + 1e-9])
+                th = t.thresholds[i]
+                g.update([th, th - 1e-9, th + 1e-9, np.nextafter(th, -np.inf), np.nextafter(th, np.inf)])
         grids.append(sorted(g))
-    Q = np.array(list(itertools.product(*grids)), dtype=float)[:3000]
+    Q = np.array(list(itertools.product(*grids)), dtype=float)
+    if len(Q) > 3000:
+        Q = Q[:: len(Q) // 3000 + 1]
     pred = model.predict(Q)
     name_menus = [None]
     base = ["alpha", "beta gamma", "f[2]", "delta"]
@@ -179,7 +189,7 @@ def print_case(case):
         if x["kind"] not in seen:
             seen.add(x["kind"])
             vs.append(x)
-    return {"v": vs, "nt": [(data_spec, tuple(sorted(cfg.items())))] if used else [],
+    return {"v": vs, "nt": [(data_spec, repr(sorted(cfg.items())))] if used else [],
             "out": [(max(t.depths), tuple(used), t.n_nodes)], "stats": {"evals": n_eval},
             "sample": {"data": data_spec, "params": {k: str(x) for k, x in p.items()}, "used_features": used, "n_nodes": t.n_nodes}}
 
@@ -222,10 +232,22 @@ def explorers(tier, seed):
     datas += [("offset", sp) for sp in list(row_multisets(4, 1)) + list(row_multisets(3, 2))[::3]]
     cfgs = configs(2 if thorough else 1)
     cases = [(spec, c, seed) for spec in datas for c in cfgs]
+    pre = {a: 0 for a in AXES}
+    pre["kernel"] = AXES["kernel"].index("precomputed")
+    for kind in ("rows_ulp", "rows_huge"):
+        for _, rows in list(row_multisets(4, 1)) + list(row_multisets(5, 1)) + list(row_multisets(4, 2))[::5]:
+            for mc in range(len(AXES["max_clusters"])):
+                cases.append(((kind, rows), dict(pre, max_clusters=mc), seed))
+    for n, d in [(80, 2), (300, 2), (600, 3)] + ([(1000, 2)] if thorough else []):
+        for mc in (5, 8):
+            for kern in ("linear", "rbf"):
+                cases.append((("blobs", n, d), {"explicit": dict(max_clusters=mc, max_depth=None, split_leaf=(2, 1), max_features=None, max_leaves=None,
+                                                                 kernel=kern, seed=0)}, seed))
     return [
         Explorer("print_parse_back", "props.c19", "print_case", cases, chunk=32, floor=300,
                  rule="fitted trees (C09 datasets x configurations with <=1 (quick) / <=2 (thorough) non-default parameters) x feature-name lists "
-                      "None, every length 0..d+1, and an ndarray x query lattice (every threshold, +-1e-9, outside the range); non-trivial = tree "
+                      "None, every length 0..d+1, and an ndarray x query lattice (every threshold, +-1e-9, +-1 ulp, outside the range); plus multisets over adjacent "
+                      "doubles / near the overflow limit (user kernel) and trees with dozens of leaves on 80..600 samples; non-trivial = tree "
                       "with at least one split; outcomes = distinct (depth, used features, nodes)"),
         Explorer("refusals", "props.c19", "refusal_case", ["unfitted", "none", "string", "linear_model", "dict", "sklearn_tree", "tree_object"],
                  chunk=1, floor=5, rule="unfitted Kauri and foreign objects must be refused"),
